@@ -48,12 +48,12 @@ structure Jordan (M P N : M4) : Prop where
 /-- the stabilizer state of the group `⟨X⊗I, I⊗X⟩` is `|++⟩⟨++|` -/
 theorem rhoPlus_group_sum : rhoPlus = (1/4 : ℚ) • (1 + XI + IX + XI * IX) := by
   ext i j
-  fin_cases i <;> fin_cases j <;> simp [rhoPlus, XI, IX, Matrix.mul_apply, Fin.sum_univ_four] <;> norm_num
+  fin_cases i <;> fin_cases j <;> simp [rhoPlus, XI, IX]
 
 /-- the stabilizer state of the group `⟨X⊗Z, Z⊗X⟩` (the generators of the one-edge graph state) is `rhoEdge` -/
 theorem rhoEdge_group_sum : rhoEdge = (1/4 : ℚ) • (1 + XZ + ZX + XZ * ZX) := by
   ext i j
-  fin_cases i <;> fin_cases j <;> simp [rhoEdge, XZ, ZX, Matrix.mul_apply, Fin.sum_univ_four] <;> norm_num
+  fin_cases i <;> fin_cases j <;> simp [rhoEdge, XZ, ZX] <;> norm_num
 
 /-- the partial transpose of `|++⟩⟨++|` is itself -/
 theorem ptA_rhoPlus : ptA rhoPlus = rhoPlus := by
